@@ -92,11 +92,13 @@ ConstantWhenControlsEqual == (Ok /\ Bounded /\ CLo = CHi) => SeqConst(out.prof, 
 NPointRejectedIff == (Done /\ kind = "npoint") => ((out.st = "invalid") <=> NPointInvalid(tn, pn, Limit))
 GuillotListedRejected == (Done /\ kind = "guillot" /\ GuillotListed(gp)) => out.st = "invalid"
 GuillotPhysicalAccepted == (Done /\ kind = "guillot" /\ GuillotPhysical(gp)) => out.st = "ok"
+StrictImpliesInvalid == (Done /\ kind = "npoint" /\ NPointStrictlyInvalid(tn, pn, Limit)) => out.st = "invalid"
 FitsInv == Ok => SeqFits(out.prof)
 
 Emit == (Export /\ Done /\ kind # "guillot") =>
     PrintT(<<"VEC", ToJson([kind |-> kind, n |-> n, lp |-> LPOf(n), tn |-> tn, pn |-> pn, sw |-> sw, lim |-> lim,
                             arr |-> arr, pmode |-> pmode, pp |-> IF pmode = "pp" THEN PpOf(Len(arr), n) ELSE <<>>,
-                            K |-> K, hinv |-> hinv, st |-> out.st, prof |-> out.prof,
+                            K |-> K, hinv |-> hinv, st |-> out.st,
+                            strict |-> (kind = "npoint" /\ NPointStrictlyInvalid(tn, pn, Limit)), prof |-> out.prof,
                             lo |-> CLo, hi |-> CHi])>>)
 =============================================================================
